@@ -164,7 +164,13 @@ fn main() {
     };
     // libFuzzer supplement (thorough tier of C01 / C10 / C14 / C18 / C19 / C20 only; DSV_FUZZ=0 switches it off)
     let code = if code == 0 && mode == "thorough" && dsv::fuzz::target_of(prop).is_some() && std::env::var("DSV_FUZZ").map_or(true, |v| v != "0") {
-        let runs = std::env::var("DSV_FUZZ_RUNS").ok().and_then(|s| s.parse().ok()).unwrap_or(3_000_000u64);
+        // fixed work per target: the oracles of C14 / C18 / C19 cost about a millisecond per execution under ASan
+        let default_runs = match prop {
+            "C14" | "C18" => 400_000u64,
+            "C19" => 1_000_000,
+            _ => 3_000_000,
+        };
+        let runs = std::env::var("DSV_FUZZ_RUNS").ok().and_then(|s| s.parse().ok()).unwrap_or(default_runs);
         fuzz_stage(prop, runs)
     } else {
         code
